@@ -52,6 +52,7 @@ const (
 	FlagEmpty              // resolver update with an empty address list
 	FlagNilMsg             // nil request message
 	FlagChain              // caller's context derives from an earlier intercepted call's context
+	FlagRepick             // told to wait, the call is picked again (same context) once a newer picker exists, as gRPC does
 )
 
 // Conn event selectors (Op.B for OpConn).
@@ -319,6 +320,14 @@ func baseCfg(r *rand.Rand) CfgSpec {
 	default:
 		c.WM = 1 + uint32(r.IntN(3))
 	}
+	// the extremes of the uint32 fields ("no limit"): sizes and watermarks beyond
+	// int32, as large as the type allows
+	if r.IntN(15) == 0 {
+		c.Max = []uint32{1<<31 - 1, 1 << 31, 1<<32 - 1}[r.IntN(3)]
+	}
+	if r.IntN(30) == 0 {
+		c.WM = []uint32{1 << 31, 1<<32 - 1}[r.IntN(2)]
+	}
 	c.Fallback = r.IntN(2) == 0
 	c.RR = r.IntN(4) == 0
 	c.Locator = r.IntN(nGoodLocators)
@@ -403,7 +412,7 @@ func Generate(r *rand.Rand, profile string, concurrent bool, av Avoid) *Plan {
 		case OpResolver:
 			o.A = r.IntN(3)
 			if r.IntN(5) == 0 {
-				o.A = 3 + r.IntN(4) // three-address, two long lists (one the other's tail), server-name variant
+				o.A = 3 + r.IntN(6) // three-address, two long lists (one the other's tail), two permutations, server-name variant
 			}
 			o.B = r.IntN(2)
 			o.C = r.IntN(4) // what else the resolver state carries: 2 a service config that did not parse, 3 attributes
@@ -473,6 +482,9 @@ func Generate(r *rand.Rand, profile string, concurrent bool, av Avoid) *Plan {
 			}
 			if (profile == "affinity" || profile == "fallback" || profile == "chaos") && r.IntN(12) == 0 {
 				o.F |= FlagChain
+			}
+			if r.IntN(3) == 0 {
+				o.F |= FlagRepick
 			}
 			if profile == "chaos" {
 				if r.IntN(12) == 0 {
